@@ -94,6 +94,40 @@ template <class M> void battery_c15(const M &m, const Ctx &ctx, RunStats &st, ui
                     if (tr2.a() != t.d() || tr2.b() != t.c() || tr2.c() != t.b() || tr2.ab() != t.dc() || tr2.bc() != t.cb() || tr2.ca() != t.bd()) bad("triangle_topology(DCB)");
                     TriangleTopology tr3 = t.triangle_topology(TT::BAC);
                     if (tr3.a() != t.b() || tr3.b() != t.a() || tr3.c() != t.c() || tr3.ab() != t.ba() || tr3.bc() != t.ac() || tr3.ca() != t.cb()) bad("triangle_topology(BAC)");
+                    {   // all 24 halfface labels, run-time and compile-time overloads: a=X, b=Y, c=Z and the halfedges join them
+                        auto V = [&](char ch) { return ch == 'A' ? a : ch == 'B' ? bb : ch == 'C' ? cc : d; };
+                        auto tri = [&](const TriangleTopology &q, const TriangleTopology &q2, const char *L) {
+                            int x = V(L[0]), y = V(L[1]), z = V(L[2]);
+                            if (q.a().idx() != x || q.b().idx() != y || q.c().idx() != z) bad(std::string("triangle_topology(") + L + ") vertices " + std::to_string(q.a().idx()) + "," + std::to_string(q.b().idx()) + "," + std::to_string(q.c().idx()));
+                            auto hechk = [&](HalfEdgeHandle h, int u, int w2) { return h.is_valid() && h.idx() < 2 * b.ne && b.elive[h.idx() / 2] && b.from(h.idx()) == u && b.to(h.idx()) == w2; };
+                            if (!hechk(q.ab(), x, y) || !hechk(q.bc(), y, z) || !hechk(q.ca(), z, x)) bad(std::string("triangle_topology(") + L + ") halfedges");
+                            if (!(q == q2)) bad(std::string("triangle_topology<") + L + ">() differs from triangle_topology(" + L + ")");
+                        };
+                        tri(t.triangle_topology(TT::BDC), t.template triangle_topology<TT::BDC>(), "BDC");
+                        tri(t.triangle_topology(TT::CBD), t.template triangle_topology<TT::CBD>(), "CBD");
+                        tri(t.triangle_topology(TT::DCB), t.template triangle_topology<TT::DCB>(), "DCB");
+                        tri(t.triangle_topology(TT::ACD), t.template triangle_topology<TT::ACD>(), "ACD");
+                        tri(t.triangle_topology(TT::CDA), t.template triangle_topology<TT::CDA>(), "CDA");
+                        tri(t.triangle_topology(TT::DAC), t.template triangle_topology<TT::DAC>(), "DAC");
+                        tri(t.triangle_topology(TT::ADB), t.template triangle_topology<TT::ADB>(), "ADB");
+                        tri(t.triangle_topology(TT::BAD), t.template triangle_topology<TT::BAD>(), "BAD");
+                        tri(t.triangle_topology(TT::DBA), t.template triangle_topology<TT::DBA>(), "DBA");
+                        tri(t.triangle_topology(TT::ABC), t.template triangle_topology<TT::ABC>(), "ABC");
+                        tri(t.triangle_topology(TT::BCA), t.template triangle_topology<TT::BCA>(), "BCA");
+                        tri(t.triangle_topology(TT::CAB), t.template triangle_topology<TT::CAB>(), "CAB");
+                        tri(t.triangle_topology(TT::BCD), t.template triangle_topology<TT::BCD>(), "BCD");
+                        tri(t.triangle_topology(TT::CDB), t.template triangle_topology<TT::CDB>(), "CDB");
+                        tri(t.triangle_topology(TT::DBC), t.template triangle_topology<TT::DBC>(), "DBC");
+                        tri(t.triangle_topology(TT::ADC), t.template triangle_topology<TT::ADC>(), "ADC");
+                        tri(t.triangle_topology(TT::CAD), t.template triangle_topology<TT::CAD>(), "CAD");
+                        tri(t.triangle_topology(TT::DCA), t.template triangle_topology<TT::DCA>(), "DCA");
+                        tri(t.triangle_topology(TT::ABD), t.template triangle_topology<TT::ABD>(), "ABD");
+                        tri(t.triangle_topology(TT::BDA), t.template triangle_topology<TT::BDA>(), "BDA");
+                        tri(t.triangle_topology(TT::DAB), t.template triangle_topology<TT::DAB>(), "DAB");
+                        tri(t.triangle_topology(TT::ACB), t.template triangle_topology<TT::ACB>(), "ACB");
+                        tri(t.triangle_topology(TT::BAC), t.template triangle_topology<TT::BAC>(), "BAC");
+                        tri(t.triangle_topology(TT::CBA), t.template triangle_topology<TT::CBA>(), "CBA");
+                    }
                     TriangleTopology direct(m, HalfFaceHandle(hf), VertexHandle(a));
                     if (!(direct == tr)) bad("TriangleTopology(mesh, hf, a) differs from TetTopology::triangle_topology<ABC>");
                     ++n;
